@@ -85,7 +85,6 @@ TraceQ6 ==
   /\ IsEvent("q6")
   /\ LET e == Trace[l] IN
      On => /\ live[6]
-           /\ ~e.stop
            /\ IF e.iana /\ e.m \in DOMAIN table[6]
               THEN e.res = "hit" /\ e.n = 1 /\ e.fam = 6 /\ e.addr = table[6][e.m] /\ e.iaidok   \* in an IA_NA, when one was requested
               ELSE e.res = "miss" /\ e.same
